@@ -50,6 +50,7 @@ type Effect struct {
 	Val    *Term // stored value
 	Call   *Term // call/go/defer: call term
 	Pure   bool  // call known not to modify memory
+	Fresh  bool  // store into memory allocated by this function (local variable cell or new object)
 	InLoop bool
 	Block  *ssa.BasicBlock
 	Seq    int // position in the interleaved sequence of effects and conditions of the path
@@ -110,9 +111,22 @@ func (p *Path) Writes() []Effect {
 		if e.Kind == "call" && e.Pure {
 			continue
 		}
+		if e.Kind == "store" && e.Fresh {
+			continue
+		}
 		out = append(out, e)
 	}
 	return out
+}
+
+// rootIsAlloc: the address is (a field/element chain over) an allocation of the current function,
+// or over a fresh object returned by a constructor-like call that was made on this path.
+func rootIsAlloc(addr *Term) bool {
+	x := addr
+	for x != nil && (x.Op == "field" || x.Op == "index" || x.Op == "ver") && len(x.Args) > 0 {
+		x = x.Args[0]
+	}
+	return x != nil && (x.Op == "alloc" || x.Op == "make")
 }
 
 func (p *Path) Calls() []Effect {
@@ -344,7 +358,7 @@ func (ex *executor) run(st *pstate, b *ssa.BasicBlock, from *ssa.BasicBlock) {
 				continue
 			}
 			st.seq++
-			st.effects = append(st.effects, Effect{Seq: st.seq, Kind: "store", Instr: in, Addr: addr, Val: val, InLoop: ex.inLoop[b], Block: b})
+			st.effects = append(st.effects, Effect{Seq: st.seq, Kind: "store", Instr: in, Addr: addr, Val: val, InLoop: ex.inLoop[b], Block: b, Fresh: rootIsAlloc(addr)})
 			st.stored[addr.Key()]++
 			st.epoch++
 		case *ssa.MapUpdate:
